@@ -215,6 +215,7 @@ NOT_APPLICABLE = [
     {'property_id': 'C16', 'reason': 'round trip runs through the two link-format scanners, which slice by pointer difference and use trim/find/split_at: Verus has no byte-level str model and Kani exhausts memory on 3-byte inputs (measured, DESIGN.md Appendix B); no contract within reach expresses parse(write(d)) == d'},
     {'property_id': 'C20', 'reason': 'retention/expiry is decided inside the external lru_time_cache crate from Instant::now(); no contract on coap-lite functions can express elapsed wall-clock time without assuming the property'},
 ]
+NOT_APPLICABLE.append({'property_id': 'C17', 'reason': 'out of reach of contract-based verification here: the two scanners slice by pointer difference and use trim/find/split_at, and Unquote::to_cow slices str by byte offsets - Verus has no byte-level str model (str is Seq<char>), and Kani/CBMC runs out of memory on Unquote::to_cow vs its iterator even for strings of <= 4 ASCII characters with UTF-8 validation bypassed (measured 415-513 s, then OOM; kani/src/unquote.rs). The to_cow defect found while reading (panic on the one-character input) is repaired and demonstrated natively (replay/tests), but no check is claimed'})
 _PENDING = 'check not built yet in this session (contract-based route planned in DESIGN.md section 4); not claimed until it passes on the reference tree and fails on seeded mutants'
 for _p in ['C01','C02','C04','C05','C06','C07','C08','C09','C10','C11','C12','C13','C14','C15','C17','C18','C19']:
     if _p not in CHECKS:
